@@ -68,7 +68,7 @@ def cases(tier: str, seed: int) -> list[dict]:
             out.append({"case": "real", "kind": kind, "dim": dim, "et": et, "kw": kw})
         nprobe = 30 if tier == "quick" else 60
         for j in range(nprobe):
-            out.append({"case": "probe", "dof_n": [1, 2, 3, 6][j % 4], "complex": (j % 5 == 0), "dim": 2 if j % 3 else 3,
+            out.append({"case": "probe", "dof_n": [1, 2, 3, 6][j % 4], "complex": (True if j % 5 == 0 else "mixed" if j % 5 == 2 else False), "dim": 2 if j % 3 else 3,
                         "et": (gm.ET_2D + gm.ET_3D)[(j + r) % 15], "nops": 6 if tier == "quick" else 12})
         for et in ["TRI3", "QUAD9", "TETRA10", "PRISM6", "SEG3", "TRI10"]:
             out.append({"case": "renumber", "kind": "thermal" if et in ("SEG3", "QUAD9") else "elastic", "et": et,
@@ -169,18 +169,24 @@ def _random_local(rng, mesh, dof_n, cplx, with_boundary: bool):
     groups = list(mesh.Get_list_groupElem(mesh.dim))
     if with_boundary and mesh.dim > 1:
         groups += list(mesh.Get_list_groupElem(mesh.dim - 1))
+    # the dict may list the groups in any order (a user subclass may add a boundary term before calling super())
+    main = groups[0]
+    if len(groups) > 1 and rng.random() < 0.5:
+        groups = [groups[i] for i in rng.permutation(len(groups))]
     local = {}
     for gi, g in enumerate(groups):
         nl = g.nPe * dof_n
         slots = []
+        # "mixed": real bulk data with complex data on some other groups (e.g. a complex impedance on a boundary)
+        gc = (g is not main and rng.random() < 0.7) if cplx == "mixed" else bool(cplx)
         for s in range(4):
-            absent = rng.random() < (0.15 if gi == 0 else 0.4)
+            absent = rng.random() < (0.15 if g is main else 0.4)
             if absent:
                 slots.append(None)
             elif s < 3:
-                slots.append(_rand(rng, (g.Ne, nl, nl), cplx))
+                slots.append(_rand(rng, (g.Ne, nl, nl), gc))
             else:
-                slots.append(_rand(rng, (g.Ne, nl), cplx))
+                slots.append(_rand(rng, (g.Ne, nl), gc))
         local[g] = tuple(slots)
     return local
 
@@ -204,7 +210,7 @@ def run_probe(case, ctx, rng):
             with quiet():
                 simu = ProbeSimu(mesh, dof_n)
                 pt = simu.problemType
-                simu.local = _random_local(rng, simu.mesh, dof_n, cplx, with_boundary=bool(rng.integers(2)))
+                simu.local = _random_local(rng, simu.mesh, dof_n, cplx, with_boundary=bool(rng.integers(2)) or cplx == "mixed")
                 ops = ["assemble", "assemble-again"] + list(rng.choice(
                     ["assemble-again", "new-values", "change-groups", "add-lagrange", "add-dirichlet", "bc-init", "replace-mesh",
                      "get-kcmf", "empty-group", "renumbered-mesh"], size=case["nops"]))
@@ -214,11 +220,11 @@ def run_probe(case, ctx, rng):
                     if op in ("assemble", "assemble-again"):
                         simu.Assembly(pt)
                     elif op == "new-values":
-                        simu.local = {g: tuple(None if v is None else _rand(rng, np.shape(v), cplx) for v in slots)
+                        simu.local = {g: tuple(None if v is None else _rand(rng, np.shape(v), np.iscomplexobj(v)) for v in slots)
                                       for g, slots in simu.local.items()}
                         simu.Assembly(pt)
                     elif op == "change-groups":
-                        simu.local = _random_local(rng, simu.mesh, dof_n, cplx, with_boundary=bool(rng.integers(2)))
+                        simu.local = _random_local(rng, simu.mesh, dof_n, cplx, with_boundary=bool(rng.integers(2)) or cplx == "mixed")
                         simu.Assembly(pt)
                     elif op == "add-lagrange":
                         nodes = rng.choice(gm.used_nodes(simu.mesh), 2, replace=False)
